@@ -463,7 +463,7 @@ Lemma step_other_ok fuel dirty s o :
 Proof.
   intros Hlow Hok. pose proof (state_ok_d dirty s Hok) as Hd.
   assert (Hst : d_stack s = []) by (destruct Hok; assumption).
-  destruct o as [i v d | d | c v | c v | q | fam n |]; cbn [step fst].
+  destruct o as [i v d | d | c v | c v | ef | q | fam n |]; cbn [step fst].
   - (* OSet *)
     pose proof (OK_d_zalsa_mut s Hd) as Hz.
     destruct (OK_d_new_revision _ Hz) as [Hn Hfresh].
@@ -498,6 +498,10 @@ Proof.
     split; [|exact Hst]. destruct dirty; destruct Hok as [A _].
     + apply (OK_d_same s); auto. apply evicted_refl.
     + apply (OK_same s); auto. apply evicted_refl.
+  - (* OSetEvFault *)
+    split; [|exact Hst]. destruct dirty; destruct Hok as [A _].
+    + apply (OK_d_same s); auto. apply evicted_refl.
+    + apply (OK_same s); auto. apply evicted_refl.
   - exact I.
   - (* OSetLru *)
     split; [|cbn; rewrite zalsa_mut_stack; exact Hst].
@@ -520,7 +524,7 @@ Proof.
   intros Hfuel. induction ops as [|o ops IH]; intros dirty s Hlow Hwf Hok; [exact I|].
   inversion Hlow as [|? ? Hlo Hlows]; subst.
   cbn [outs_ok].
-  destruct o as [i v d | d | c v | c v | q | fam n |].
+  destruct o as [i v d | d | c v | c v | ef | q | fam n |].
   - split; [exact I|]. apply (IH false); [exact Hlows | exact Hwf |].
     apply (step_other_ok fuel dirty s (OSet i v d) Hlo Hok).
   - split; [exact I|]. apply (IH false); [exact Hlows | exact Hwf |].
@@ -529,6 +533,8 @@ Proof.
     apply (step_other_ok fuel dirty s (OSetCell c v) Hlo Hok).
   - split; [exact I|]. apply (IH dirty); [exact Hlows | exact Hwf |].
     apply (step_other_ok fuel dirty s (OSetPanic c v) Hlo Hok).
+  - split; [exact I|]. apply (IH dirty); [exact Hlows | exact Hwf |].
+    apply (step_other_ok fuel dirty s (OSetEvFault ef) Hlo Hok).
   - destruct Hwf as [-> Hwf].
     destruct (step_get_ok fuel s q Hfuel Hok) as [Hg Hs].
     split; [exact Hg|]. apply (IH false); assumption.
